@@ -92,6 +92,7 @@ class World:
         self.short_reads = False
         self.shuffle_dirs = False
         self.cache_pages = random.Random('%s:cache' % seed).choice([0, 0, 1, 2, 8])
+        self.page_size = random.Random('%s:page' % seed).choice([0, 0, 512, 1024])
         self.recording = False
         self.node('primary')
         self.use('primary')
@@ -333,8 +334,14 @@ class _Sqlite3Shim:
     def connect(self, *args, **kwargs):
         kwargs['factory'] = SimConnection
         kwargs.setdefault('timeout', 0)
+        path = args[0] if args else kwargs.get('database')
+        fresh = not (path and os.path.exists(path) and os.path.getsize(path) > 0)
         conn = _real_sqlite3_connect(*args, **kwargs)
         w = World.current
+        if w is not None and w.page_size and fresh:
+            # tuning knob: small pages make even small writes allocate pages (and hit a
+            # real SQLITE_FULL under PRAGMA max_page_count)
+            conn.execute('PRAGMA page_size = %d' % w.page_size)
         if w is not None and w.cache_pages:
             # tuning knob of the storage engine: a page cache small enough for write
             # transactions to spill to the database file before they commit or roll back
